@@ -240,6 +240,20 @@ def specUn (psBefore : PState) (ss : SState) (newId : Nat) (mres : String) (op a
           fin ({ ss with objs := (ss.sync newId).objs.push (some o') }) (some "r=ok ident=new")
   | _, _ => undef ss
 
+/-- identity only: did M's object `id` get another data buffer in this step? (A tensor that owns its data without
+    holding it in the default layout of its shape — the clone of a non-contiguous view — is given an array of its own
+    by `Reshape` and by a physical transposition.) -/
+def movedBuf (psBefore psAfter : PState) (id : Nat) : Bool :=
+  match psBefore.ds[id]?, psAfter.ds[id]? with
+  | some d, some d' => d.win.buf != d'.win.buf
+  | _, _ => false
+
+/-- the object stops sharing cells with the others: it refers to a copy of its root's cells -/
+def SState.setMoved (ss : SState) (id : Nat) (o : SObj) : SState :=
+  match ss.store[o.root]? with
+  | some cells => { ss with store := ss.store.push cells }.setObj id (some { o with root := ss.store.size })
+  | none => ss.setObj id none
+
 /--
   One step of S. `psBefore`/`psAfter` are M's states (used only for variable → object identity and to
   learn whether the *model* changed an object, never for values). `mres` is M's outcome class.
@@ -302,7 +316,10 @@ def stepS (psBefore psAfter : PState) (ss : SState) (stepIdx : Nat) (toks : List
           let pend := match o.pending with
             | .none => Pend.one o.idx
             | _ => Pend.ambiguous
-          fin (ss.setObj id (some { o with idx := idx', pending := pend, pat := [], ordered := false })) (some "r=ok")
+          let o' : SObj := { o with idx := idx', pending := pend, pat := [], ordered := false }
+          -- a second `T` may run the physical transposition first
+          if !o.isView && movedBuf psBefore psAfter id then fin (ss.setMoved id o') (some "r=ok") else
+          fin (ss.setObj id (some o')) (some "r=ok")
     | _, _ => fin ss none
   | ["UT", v] =>
     match sObj psBefore ss v with
@@ -318,7 +335,9 @@ def stepS (psBefore psAfter : PState) (ss : SState) (stepIdx : Nat) (toks : List
       -- only a transpose S *knows* to be pending makes a claim about the storage order afterwards (`ambiguous`:
       -- the second T may have been the undo of the first, then nothing moves)
       let wasPending := match o.pending with | .one _ => true | _ => false
-      fin (ss.setObj id (some { o with pending := .none, ordered := (wasPending && !o.isView) || o.ordered, pat := [] })) (some "r=ok")
+      let o' : SObj := { o with pending := .none, ordered := (wasPending && !o.isView) || o.ordered, pat := [] }
+      if !o.isView && movedBuf psBefore psAfter id then fin (ss.setMoved id o') (some "r=ok") else
+      fin (ss.setObj id (some o')) (some "r=ok")
     | _ => fin ss none
   | ["at", v, coords] =>
     match sObj psBefore ss v, parseIntList coords with
@@ -472,7 +491,12 @@ def stepS (psBefore psAfter : PState) (ss : SState) (stepIdx : Nat) (toks : List
       | none => fin (ss.setObj id none) none
       | some ni =>
         if mres == "ok" then
-          fin (ss.setObj id (some { o with idx := ni, pending := .none, pat := [], ordered := false }))
+          -- identity only: a tensor that owns its data may be given an array of its own by the reshape (one that does
+          -- not hold its elements in the default layout of its shape is compacted); it then stops sharing cells with
+          -- the views taken from it before, which keep theirs. Whether that happened is read off M's object.
+          let o' : SObj := { o with idx := ni, pending := .none, pat := [], ordered := false }
+          if !o.isView && movedBuf psBefore psAfter id then fin (ss.setMoved id o') (some "r=ok") else
+          fin (ss.setObj id (some o'))
             (some (if o.isView then "r=ok|err" else "r=ok"))
         else fin ss (some (if o.isView then "r=ok|err" else "r=ok"))
     | _, _ => fin ss none
